@@ -442,14 +442,19 @@ def impl_env():
     return e
 
 
-def run_impl(script, payload, timeout=1800):
+def run_impl(script, payload, timeout=1800, env_extra=None):
     """Run harness/impl/<script>.py in a fresh interpreter against REPO.
     payload (JSON-able) is passed on stdin, the JSON result read from a temp file."""
     path = os.path.join(ROOT, "harness", "impl", script + ".py")
     fd, outp = tempfile.mkstemp(prefix="svimpl_", suffix=".json")
     os.close(fd)
     try:
-        p = subprocess.run([PY, path, outp], input=json.dumps(payload), env=impl_env(),
+        env = impl_env()
+        if env_extra:
+            env.update(env_extra)
+        elif isinstance(payload, dict) and isinstance(payload.get("_env"), dict):
+            env.update(payload["_env"])          # per-payload environment (e.g. another PYTHONHASHSEED)
+        p = subprocess.run([PY, path, outp], input=json.dumps(payload), env=env,
                            stdout=subprocess.PIPE, stderr=subprocess.PIPE, text=True,
                            timeout=timeout, cwd=tempfile.gettempdir())
         if p.returncode != 0:
